@@ -247,6 +247,12 @@ class MiniMallocate(RewritePattern):
                 ):
                     for result in use.operation.results:
                         add_uses(result, buffer)
+                elif use.operation.has_trait(IsTerminator) and (parent := use.operation.parent_op()) is not func_op:
+                    # the buffer leaves a region through its terminator (scf.yield): it lives on in the results of the parent op
+                    assert parent is not None
+                    for result in parent.results:
+                        if isinstance(result.type, builtin.MemRefType):
+                            add_uses(result, buffer)
 
         if len(func_op.body.blocks) != 1:
             return
